@@ -6,6 +6,7 @@ from gsepy import *
 L6A, L6B, L3A, L3B = "6:010203040506", "6:0a0b0c0d0e0f", "3:aabbcc", "3:112233"
 L3Z = "3:000000"    # legal (only the 6-byte zero label is reserved); a seeded change rejecting it went unnoticed without it
 L6N = "6:000000000001"   # almost zero: legal
+L6C, L6D, L3C = "6:010203aabbcc", "6:aabbcc040506", "3:010203"   # same first / last three bytes as L6A, and L6A's first three bytes alone
 LABELS = [L6A, L6B, L3A, L3B, "B", L3Z, L6N]
 ZERO6 = "6:000000000000"
 PTYPES_OK = [0x0600, 0x0800, 0x86DD, 0xFFFF, 0x0000, 0x0081, 0x00FF]
@@ -466,6 +467,15 @@ def fam_mem(rng, n, exhaustive_depth=0):
                     c.add("DOBS")
             c.add("DOBS")
             out.append(c)
+    for rep in range(2):
+        # buffers of 65536 bytes and more, whose length modulo 65536 is below / at / above the configured size
+        c = Case("membig_%d" % rep)
+        maxpdu = rng.choice([8, 300, 4096])
+        c.add("DNEW 2 %d simple" % maxpdu)
+        for sz in rng.choice([[65536, 65536 + maxpdu - 1, 131072, 65536 + maxpdu, 65535], [131072 + maxpdu - 1, 65537, 65536, 70000, 65536]]):
+            c.add("DPROV %d" % sz)
+        c.add("DOBS", "DNEWPDU", "MNEWFRAG %s" % ctx(1), "MSAVE", "DOBS", "DPROVBACK", "DOBS")
+        out.append(c)
     for i in range(n):
         c = Case("mem%d" % i)
         slots = rng.choice([0, 1, 2, 3, 4])
@@ -552,12 +562,15 @@ def fam_pre(rng, n):
             # around the 16-bit total length, with buffers on both sides of the first-fragment header size
             pl = 65535 - 2 - lab_len(label) + rng.range(-3, 4)
             bl = rng.choice([0, 5, 6 + lab_len(label), 7 + lab_len(label), 13, 4097, 70000])
+        far = (i % 50 == 9)
+        if far:
+            pl = rng.choice([65536, 65537, 69631, 70000, rng.range(65536, 70000)])      # 65536 bytes and more behind the context
         p = pdu_tok(rng, pl)
         c.add("ENEW")
         if rng.chance(0.3):
             c.add("EDIS")
         c.add("PENCAP %s %d %s %d" % (p, pt, label, bl), "ENCAP %s 7 %d %s %d 1" % (p, pt, label, bl))
-        lpf = rng.range(0, pl + 1)
+        lpf = rng.range(0, pl + 1) if not far else max(0, rng.choice([0, pl - 65536, pl - 65535, pl - 65537, rng.range(0, pl - 65536)]))
         rem = max(0, pl - lpf)
         bl2 = max(0, rng.choice([rng.range(0, 12), rem + 7 + rng.range(-3, 3), rem + 3 + rng.range(-2, 2), near(rng, 4097, 4098), rng.range(0, 5000)]))
         c.add("PFRAG %s 7 99 %d %d" % (p, min(lpf, 65535), bl2), "EFRAG %s 7 99 %d %d 1" % (p, min(lpf, 65535), bl2))
@@ -599,6 +612,18 @@ def fam_utl(rng, n):
         c.add("UPARSE E %s" % hx(build_end(fid, pdu, crc) + rng.bytes(slack)))
         if rng.chance(0.2):
             c.add("UPARSE %s %s" % (rng.choice("CFIE"), hx(malformed_packet(rng))))
+        if label not in ("R", ZERO6) and i % 3 == 0:
+            # a consistent train of generated first / intermediate / end packets (payloads of 0, 1, 2.. bytes), given to a receiver
+            pa, pb = rng.bytes(rng.choice([0, 1, 5, rng.range(0, 20)])), rng.bytes(rng.choice([1, 1, 2, 3, rng.range(1, 30)]))
+            pb2 = rng.bytes(rng.choice([1, 2, rng.range(1, 9)])) if rng.chance(0.4) else b""
+            pc = rng.bytes(rng.choice([0, 1, 2, 4, rng.range(0, 30)]))
+            whole = pa + pb + pb2 + pc
+            tot3 = 2 + ll + len(whole)
+            c.add("DNEW %d %d simple" % (rng.choice([1, 2, 256]), len(whole)), "DPROV %d" % (len(whole) + rng.range(0, 2)))
+            c.add("DECAP %s" % hx(build_first(fid, tot3, pt, label, pa)), "DECAP %s" % hx(build_inter(fid, pb)))
+            if pb2:
+                c.add("DECAP %s" % hx(build_inter(fid, pb2)))
+            c.add("DECAP %s" % hx(build_end(fid, pc, gse_crc(whole, pt, tot3, label_bytes(label)))))
         # the same fields through the encapsulator
         c.add("ENEW", "ENCAP %s %d %d %s %d 3" % (hx(pdu), fid, pt, label if label != ZERO6 else L6A, 4 + ll + len(pdu)))
         out.append(c)
